@@ -491,10 +491,17 @@ def _fixtime_one(dsp, nb, t, y, var, exact, res):
     form = var.get("form", "tuple")
     arg = (t, y) if form == "tuple" else np.column_stack((t, y))
     steps = np.diff(t)
+    if var.get("getall"):
+        kw["getall"] = True
+    if var.get("keepdrops"):
+        kw["deldrops"] = False
+    info = None
     try:
         with warnings.catch_warnings():
             warnings.simplefilter("ignore")
             out = dsp.fixtime(arg, **kw)
+            if var.get("getall"):
+                out, info = out
     except Exception as e:  # noqa
         if isinstance(e, ValueError) and "no positive steps" in str(e) and not (steps > 0).any():
             res.exit("fixtime: no positive time step (documented refusal)")
@@ -513,8 +520,20 @@ def _fixtime_one(dsp, nb, t, y, var, exact, res):
         tn, yn = out[:, 0], out[:, 1]
     # cleaned record
     keep = ~(np.isnan(y) | (np.abs(y - -1.40130e-45) < 1.4e-47))
+    if var.get("keepdrops"):
+        keep = np.ones(len(y), bool)
+    if info is not None:
+        want_drops = np.nonzero(~keep)[0]
+        got_drops = info.alldrops.dropouts if info.alldrops is not None else None
+        if got_drops is None or not np.array_equal(np.sort(np.asarray(got_drops)), want_drops):
+            return "fixinfo.alldrops.dropouts = %r, drop-outs are at input positions %s" % (None if got_drops is None else np.asarray(got_drops).tolist(), want_drops.tolist())
+        if keep.any() and len(np.unique(t[keep])) > 1:
+            if info.sr_stats is None or len(info.sr_stats) != 5 or info.tp is None or np.any(np.asarray(info.tp) < 0) or np.any(np.asarray(info.tp) >= keep.sum()):
+                return "fixinfo.sr_stats / tp malformed: %r %r" % (info.sr_stats, info.tp)
     told, yold = t[keep], y[keep]
     if len(told) == 0:
+        if not (np.array_equal(tn, np.sort(t)) or np.array_equal(tn, t)):
+            return "record with only drop-outs: time vector changed"
         return None
     o = np.argsort(told, kind="stable")
     told, yold = told[o], yold[o]
@@ -572,7 +591,45 @@ def fixtime_variants(tier):
     for d in range(0, 7 if tier != "quick" else 4):
         v.append(dict(drop=d))
         v.append(dict(drop=d, dropkind="nan", hold=True))
+    v.append(dict(drop=1, getall=True))
+    v.append(dict(drop=0, getall=True, hold=True))
+    v.append(dict(drop=2, keepdrops=True))
+    v.append(dict(getall=True, form="ndarray"))
     return v
+
+
+def check_fixtime_refusals(res):
+    """documented refusals and the only-drop-outs record"""
+    from pyyeti import dsp
+
+    msgs = []
+    t = np.array([0.0, 1.0, 0.5, 2.0])
+    y = np.arange(4.0)
+    with warnings.catch_warnings():
+        warnings.simplefilter("ignore")
+        try:
+            dsp.fixtime((t, y), sr=1, negmethod="stop", verbose=False)
+            msgs.append((dict(part="fixtime_refusals", what="stop"), "negmethod='stop' accepted a time vector with a negative step"))
+        except ValueError:
+            res.exit("fixtime: negmethod='stop' (documented refusal)")
+        for tol in (-0.1, 1.5):
+            try:
+                dsp.fixtime((np.arange(4.0), y), sr=1, hold_previous_value=True, previous_value_tol=tol, verbose=False)
+                msgs.append((dict(part="fixtime_refusals", what="tol"), "previous_value_tol=%r accepted (documented range [0, 1])" % tol))
+            except ValueError:
+                res.exit("fixtime: previous_value_tol outside [0, 1] (documented refusal)")
+        for bad in (np.zeros((3, 3)), (np.arange(3.0), np.arange(4.0))):
+            try:
+                dsp.fixtime(bad, sr=1, verbose=False)
+                msgs.append((dict(part="fixtime_refusals", what="shape"), "malformed time/data input accepted"))
+            except ValueError:
+                res.exit("fixtime: malformed input (documented refusal)")
+        yd = np.full(4, -1.40130e-45)
+        out = dsp.fixtime((np.arange(4.0), yd), sr=1, verbose=False)
+        if not (np.array_equal(out[0], np.arange(4.0)) and np.array_equal(out[1], yd)):
+            msgs.append((dict(part="fixtime_refusals", what="alldrops"), "record with only drop-outs is not returned unchanged"))
+    res.ev("fixtime/refusals")
+    return msgs
 
 
 def check_fixtime_long(res):
@@ -691,6 +748,7 @@ def shards(tier, seed):
             else:
                 out.append(dict(part="fixtime", first=first, L=L))
     out.append(dict(part="fixtime_long"))
+    out.append(dict(part="fixtime_refusals"))
     r = seed % len(out)
     return out[r:] + out[:r]
 
@@ -737,6 +795,8 @@ def _run(sh, res):
                         msgs.append((dict(part="fixtime", steps=list(steps), var=var), m))
             return msgs
         return check_fixtime(sh["first"], sh["L"], res, variants)
+    if part == "fixtime_refusals":
+        return check_fixtime_refusals(res)
     if part == "fixtime_long":
         m = check_fixtime_long(res)
         if "rec" in sh:
